@@ -255,6 +255,41 @@ mod c20_chrono {
         run::<{ 3600 }>()
     }
 
+    /// windows around the two boundaries (the epoch, 2^32) for a zone west and a zone east of Greenwich: the instants at which a conversion that looks at
+    /// local calendar fields instead of the instant goes wrong
+    fn window<const OFF: i32>(centre: i64) {
+        let d: i64 = kani::any();
+        kani::assume(d > -(1i64 << 14) && d < (1i64 << 14));
+        let secs = centre + d;
+        let nanos: u32 = kani::any();
+        kani::assume(nanos < 1_000_000_000);
+        let dt = chrono::DateTime::from_timestamp(secs, nanos).unwrap();
+        let tz = chrono::FixedOffset::east_opt(OFF).unwrap();
+        let r = Timestamp::try_from(dt.with_timezone(&tz));
+        assert!(r == oracle(secs), "fixed offset near a boundary: zone does not change the instant");
+        kani::cover!(d == 0, "the boundary itself");
+    }
+    #[kani::proof]
+    #[kani::unwind(8)]
+    fn c20_chrono_win0_m0100() {
+        window::<{ -3600 }>(0)
+    }
+    #[kani::proof]
+    #[kani::unwind(8)]
+    fn c20_chrono_win0_p0100() {
+        window::<{ 3600 }>(0)
+    }
+    #[kani::proof]
+    #[kani::unwind(8)]
+    fn c20_chrono_win32_m0100() {
+        window::<{ -3600 }>(1i64 << 32)
+    }
+    #[kani::proof]
+    #[kani::unwind(8)]
+    fn c20_chrono_win32_p0100() {
+        window::<{ 3600 }>(1i64 << 32)
+    }
+
     #[kani::proof]
     #[kani::unwind(8)]
     fn c20_chrono_monotone() {
